@@ -22,9 +22,37 @@ UNITS = {
     'builder': {'rlimit': 50, 'timeout': 240},
     'encode': {'rlimit': 100, 'timeout': 240},
     'getkey': {'rlimit': 50, 'timeout': 120},
+    'stream': {'rlimit': 50, 'timeout': 240},
 }
 
 PROPS = {
+    'C03': {
+        'units': ['stream'],
+        'kani': [],
+        'own': {'stream': r'Bound::|StreamBuilder|StreamWithState::(new|seek_min|next_with)|Stream::|impl&%\\d+::(next|into_stream)|Output::'},
+        'level_text': 'Proof: StreamWithState::seek_min and next_with (real bodies) are verified against the depth-first listing of the '
+                      'decoded graph: after seek_min exactly the entries >= / > the lower bound are outstanding; each next returns the first '
+                      'outstanding entry that the upper bound admits and leaves the rest; None exactly when nothing is left, forever. '
+                      'Bound::{exceeded_by,is_empty,is_inclusive} and the ge/gt/le/lt builder methods are verified against lex order; each '
+                      'sets exactly its own bound (so the last setting wins) and into_stream composes them.',
+        'level_note': 'Node accessors / FstRef::node are assumed contracts (decoder, unit decode); the hoisted position(|t| t.inp > b) '
+                      'expression is an assumed contract (Kani K-scan). That the listing is strictly ascending and agrees with get() is a '
+                      'spec-level consequence of wf_graph (listing lemmas). Partial output sums fit in u64: precondition `fits`.',
+        'explanation': '',
+        'assumptions': [],
+    },
+    'C04': {
+        'units': ['stream', 'automaton'],
+        'kani': [],
+        'own': {'stream': r'StreamWithState::(new|seek_min|next_with)|Stream::|impl&%\\d+::(next|into_stream)', 'automaton': r'^$'},
+        'level_text': 'Proof: the stream contracts of C03 are stated for an arbitrary A: Automaton of which only the trait contract of C18 '
+                      'is known (inv/denot/lang; can_match only has to be sound), so the result - the in-range keys k with lang(k), in '
+                      'listing order with their values - does not depend on how precise the pruning hints are.',
+        'level_note': 'accept_eof is required to return None (the property excludes the end-of-key hook). The state reported by '
+                      'search_with_state (third tuple component) is not yet part of the verified contract.',
+        'explanation': '',
+        'assumptions': ['search_with_state: the reported automaton state is not covered by the contract'],
+    },
     'C16': {
         'units': ['getkey'],
         'kani': [],
